@@ -89,7 +89,7 @@ def _worker(ob, conn):
                     agg["sub"] = 1
                 else:
                     agg["sub"] += 1
-                    for k in ("paths", "ok_paths", "unknown_paths", "ignored_paths", "cpu_s", "solver_checks", "solver_s"):
+                    for k in ("paths", "ok_paths", "unknown_paths", "ignored_paths", "fail_paths", "cpu_s", "solver_checks", "solver_s"):
                         agg[k] += d[k]
                     for t, c in d["tags"].items():
                         agg["tags"][t] = agg["tags"].get(t, 0) + c
